@@ -53,9 +53,11 @@ func vC16Statement() (influxql.Statement, []vC16Req, bool) {
 }
 
 func vC16Privilege(tag string) (influxql.Privilege, bool) {
-	switch vChoice(tag, 4) {
+	switch vChoice(tag, 5) {
 	case 0:
 		return influxql.NoPrivileges, false // no grant recorded
+	case 4:
+		return influxql.NoPrivileges, true // an entry left behind by REVOKE (value NoPrivileges)
 	case 1:
 		return influxql.ReadPrivilege, true
 	case 2:
